@@ -296,6 +296,25 @@ def stream_setter_pairs(rng, tier):
     return out
 
 
+def stream_setters_after(rng, tier):
+    """every setter of every builder after: a rich request on the same block, then a soft reset
+    (complete, or with its event read failing), a self test or a command - `every prior content`
+    includes the content a reset leaves behind, on the device AND in what the driver records"""
+    out = []
+    n = 0
+    mids = ['reset', 'reset !1', 'selftest', 'flush']
+    for b in BUILDERS:
+        for name, tys in SETTERS[b]:
+            for mid in (mids if tier != 'quick' else [mids[0], rng.choice(mids[1:])]):
+                first = ' '.join([b] + [rand_setter(rng, b) for _ in range(rng.randint(3, 6))])
+                second = '%s %s' % (b, rand_setter(rng, b)) if rng.random() < 0.3 else \
+                    '%s %s' % (b, setter_tok(name, [rand_value(rng, t) for t in tys]))
+                pre = ['gen1 src:1', 'gen2 src:1', 'act src:1'] if b == 'int' else []
+                out.append(case('sa%d' % n, rng.choice(['i2c', 'i2c', 'spi']), pre + [first, mid, second, b], ''))
+                n += 1
+    return out
+
+
 def stream_selftest_faults(rng, tier):
     """every interrupt enabled; self test cut at EVERY raw position (set-up, measurement, each of
     the six restoring writes) or complete; then a parameter change of that interrupt, a no-op
@@ -308,7 +327,8 @@ def stream_selftest_faults(rng, tier):
             for rq in rng.sample(reqs, min(len(reqs), 2 if tier == 'quick' else len(reqs))):
                 ops = ['acc odr:%d scale:%d osr:%d' % (odr, rng.randrange(4), rng.randrange(4))] + pre
                 ops.append('selftest' + ('' if k is None else ' !%d' % k))
-                ops += [rq, 'int', rq.split(' ')[0]]
+                ops.append('data')      # scaled with the range the DEVICE has now (C16, C03)
+                ops += [rq, 'int', rq.split(' ')[0], 'data']
                 hdr = 'pos=%s neg=%s' % (hexs(sample6(rng, True)), hexs(sample6(rng, False)))
                 out.append(case('sf%d' % n, 'i2c', ops, hdr))
                 n += 1
@@ -911,6 +931,11 @@ def stream_twin(rng, tier):
                                               hexs([rng.randrange(256) for _ in range(20)]))
         out.append(case('x%da' % i, 'i2c', ops, hdr))
         out.append(case('x%db' % i, 'spi', ops, hdr))
+    # the chip-id read of the constructor failing on both transports (raw operation 0 on I2C; the data
+    # operations of the SECOND access on SPI: the first one is the SPI-only dummy read)
+    for j, (ks, idv) in enumerate([(k, i) for k in (5, 6) for i in (0x90, 0x42)]):
+        out.append(case('z%da' % j, 'i2c', [], 'low=%02x !0' % idv))
+        out.append(case('z%db' % j, 'spi', [], 'low=%02x !%d' % (idv, ks)))
     # the same request before and after a reset / self test / command (a transport must not remember)
     for j, l in enumerate(stream_reapply(rng, tier, ('i2c',))):
         secs = l.split(' | ')
@@ -978,7 +1003,17 @@ def stream_fifo_guard(rng, tier):
             ops.append('rfifo:%d' % rng.choice([0, 1, 2, 15, 33, 33, 255, 256, 257, 1024, 1025, 1030, 2000]))
         hdr = 'pos=%s neg=%s fifo=%s' % (hexs(sample6(rng, True)), hexs(sample6(rng, False)),
                                          hexs([rng.randrange(256) for _ in range(33)]))
-        out.append(case('p%d' % i, ctor_for(rng, ops), ops, hdr))
+        ctor = ctor_for(rng, ops)
+        if ctor == 'i2c':
+            # a burst that fails is ONE attempted burst and an error, whatever happened before
+            ops = [o + ' !0' if (o.startswith('rfifo') and rng.random() < 0.25) else o for o in ops]
+        out.append(case('p%d' % i, ctor, ops, hdr))
+    # power-down, power-up, then a failing first burst and a second one
+    for j, pre in enumerate([[], ['fifo rddis:1'], ['fifo rddis:1', 'fifo rddis:0'], ['fifo rddis:1', 'reset'],
+                             ['fifo rddis:1', 'fifo rddis:0 wm:5'], ['fifo rddis:0'], ['fifo rddis:1', 'selftest', 'fifo rddis:0']]):
+        for nbytes in (0, 1, 33, 300):
+            out.append(case('pq%d_%d' % (j, nbytes), 'i2c', pre + ['rfifo:%d !0' % nbytes, 'rfifo:%d' % nbytes, 'flush !0', 'flush'],
+                            'fifo=%s' % hexs([rng.randrange(256) for _ in range(33)])))
     return out
 
 
@@ -1053,9 +1088,10 @@ def fault_bases(rng, tier, builders_only=False):
     """fault-free base cases whose last operation gets a fault at every position"""
     out = []
     n = 0
-    for ctor in ('i2c', 'spi'):
-        for i in range(QS * 25 if tier == 'quick' else 300):
+    for ctor in ('i2c', 'spi', 'spi3'):
+        for i in range((QS * 25 if tier == 'quick' else 300) // (3 if ctor == 'spi3' else 1)):
             for last in [rand_request(rng, b, 5) for b in BUILDERS] + ([] if builders_only else ['selftest', 'reset', 'data', 'rfifo:5', 'rfifo:300', 'flush', 'status',
+                                                                      'rfifo:0', 'rfifo:1', rng.choice(GETTERS),
                                                                       'pin int1:%d tap:3 actch:1 step:2 wkup:1 gen1:1 drdy:1 fwm:3' % rng.randrange(4)]):
                 ops = reach_state(rng)
                 hdr = 'low=%s pos=%s neg=%s' % (rand_low(rng), hexs(sample6(rng, True)), hexs(sample6(rng, False)))
